@@ -9,12 +9,44 @@ from cpverif import spec as S
 from cpverif.lib import L
 
 
-def chart_text(res: int, tempo, sections: dict[str, list[str]], events=(), fmt: int = 0, strays=()) -> str:
+_SONG_EXTRAS = ['Offset = 5', 'Player2 = rhythm', 'Difficulty = 3', 'Name = "end"', 'Genre = "rock"', 'Offset = 0.25',
+                'Player2 = bass', 'PreviewStart = 30', 'MediaType = "cd"', 'Charter = "N 5 0"', 'Year = ", 2018"',
+                'MusicStream = "song.ogg"', 'PreviewEnd = 99999', 'Artist = "S 2 100"', 'Album = "Resolution = 3"',
+                'HopoFrequency = 170', 'hopo_frequency = 1', 'EighthNoteHopo = 1', 'FiveLaneDrums = 1',
+                'SustainCutoffThreshold = 64', 'MultiplierNote = 116', 'EndEvents = 1', 'Delay = 500',
+                'StarPowerNote = 103', 'ProDrums = True', 'Difficulty = 0']
+_TS_FORMS = ["TS 3", "TS 6 3", "TS 4 2", "TS 7 3", "TS 1 0", "TS 12 3", "TS 5 2", "TS 2 1"]
+
+
+def _surroundings(res: int, sections: dict[str, list[str]], extra: int) -> tuple[list[str], list[str]]:
+    """Metadata fields, time signatures and anchors: things a chart usually carries and that say nothing
+    about what an instrument section contains.  A deterministic function of ``extra`` and the sections."""
+    if not extra:
+        return [], []
+    k = extra
+    song = [_SONG_EXTRAS[(k + 5 * j) % len(_SONG_EXTRAS)] for j in range((k >> 3) % 4)]
+    song = [x for i, x in enumerate(song) if x.split(" ", 1)[0] not in {y.split(" ", 1)[0] for y in song[:i]}]
+    ticks = sorted({int(l.split(" ", 1)[0]) for body in sections.values() for l in body[:60]
+                    if l[:1].isdigit() and l.split(" ", 1)[0].isdigit()})
+    sync: list[str] = []
+    if ticks and (k >> 5) % 3:
+        picks = sorted({ticks[(k >> 7) % len(ticks)], ticks[len(ticks) // 2], ticks[-1]})[: 1 + (k >> 9) % 3]
+        sync += [f"{t} = {_TS_FORMS[((k >> 11) + j) % len(_TS_FORMS)]}" for j, t in enumerate(picks) if t > 0]
+        if (k >> 13) % 2:
+            sync.append(f"{picks[0]} = A {(k >> 4) % 10 ** 7}")
+    return song, sync
+
+
+def chart_text(res: int, tempo, sections: dict[str, list[str]], events=(), fmt: int = 0, strays=(),
+               extra: int = 0) -> str:
     # ``strays``: lines of the instrument section repeated verbatim in [SyncTrack] and [Events], where
     # they are unparsable noise (what a line means depends on its section, not on its text)
     strays = list(strays)
-    secs = [("Song", [f"Resolution = {res}"]),
-            ("SyncTrack", ["0 = TS 4"] + [f"{t} = B {n}" for t, n in tempo] + strays[:2]),
+    song, sync = _surroundings(res, sections, extra)
+    pos = (extra >> 1) % (len(song) + 1)
+    secs = [("Song", song[:pos] + [f"Resolution = {res}"] + song[pos:]),
+            ("SyncTrack", ["0 = TS 4"] + [x for x in sync if " = TS " in x] + [f"{t} = B {n}" for t, n in tempo]
+             + [x for x in sync if " = A " in x] + strays[:2]),
             ("Events", strays[1:] + [S.event_line(e) for e in events])]
     secs += [(h, body) for h, body in sections.items()]
     if not fmt:
@@ -67,12 +99,34 @@ def _decoys(header: str, lines: list[str], mode: int) -> dict[str, list[str]]:
         first_note_tick = next((b.split(" ", 1)[0] for b in body if " = N " in b), None)
         return [b for b in body if not (b.split(" ", 1)[0] == first_note_tick and " = N 5 " in b)]
 
+    def rich():
+        # a fuller sibling: a plain note on every tick of the target, all of them inside one star-power
+        # phrase, a solo around them (what one difficulty contains says nothing about another)
+        ticks = sorted({int(ln.split(" ", 1)[0]) for ln in lines if ln[:1].isdigit()})
+        if not ticks:
+            return []
+        body = []
+        for j, t in enumerate(ticks):
+            body.append(f"{t} = N {(j + k) % 5} {(j % 3) * 4}")
+            if j == 0:
+                body += [f"{t} = S 2 {ticks[-1] - t + 1}", f"{t} = E solo"]
+        return body + [f"{ticks[-1]} = E soloend"]
+
+    # every third time one neighbour is the same instrument at another difficulty (Expert when possible)
+    dtxt = next(d for _, d in S.DIFFICULTIES if header.startswith(d))
+    sibling = ("Expert" if dtxt != "Expert" else "Hard") + header[len(dtxt):]
     out = {}
     if mode & 1:
-        out[before] = thinned() if k % 2 else cut(max(1, len(lines) // 2))
+        if k % 3 == 0:
+            out[sibling] = rich()
+        else:
+            out[before] = thinned() if k % 2 else cut(max(1, len(lines) // 2))
     out[header] = lines
     if mode & 2:
-        out[after] = cut(len(lines)) if k % 2 else thinned()
+        if k % 3 == 1 and sibling not in out:
+            out[sibling] = rich()
+        else:
+            out[after] = cut(len(lines)) if k % 2 else thinned()
     return out
 
 
@@ -80,7 +134,9 @@ def _decoys(header: str, lines: list[str], mode: int) -> dict[str, list[str]]:
 # opens a practice section, ...): what stands in [Events] never changes what a track contains
 _EVENT_WORDS = ["end", "music_start", "section Chorus 1", "lyric la", "phrase_start", "end", "music_end", "coda",
                 "phrase_end", "idle", "section end", "solo", "soloend", "half_tempo", "End", "section Verse 2a",
-                "lighting (chase)", "crowd_noclap", "play", "lyric end"]
+                "lighting (chase)", "crowd_noclap", "play", "lyric end", "normal_tempo", "crowd_lighters_fast",
+                "band_jump", "preview", "ENABLE_CHART_DYNAMICS", "section prc_intro", "lyric +", "Default", "verse",
+                "sync_wag", "crowd_realtime", "lighting ()", "section [prc_verse_1]", "music_end", "chorus"]
 
 
 def _global_events(lines: list[str]) -> list[list]:
@@ -97,8 +153,10 @@ def _global_events(lines: list[str]) -> list[list]:
 
 # lines that say nothing about notes or star power: track events (whatever their word) and lines that are
 # not of the format (special phrases other than type 2, lane 8, ...), which are skipped with a warning
-_INERT = ["E *", "E T", "E solo", "S 64 {n}", "E soloend", "S 0 {n}", "S 1 {n}", "E N", "E 5", "S 65 {n}",
-          "N 8 0", "E forced", "E tap", "S 66 {n}", "E sp", "E S", "N 9 {n}", "E 6", "S 3 {n}", "E hopo"]
+_INERT = ["E *", "E T", "E O", "E solo", "S 64 {n}", "E soloend", "S 0 {n}", "S 1 {n}", "E N", "E 5", "S 65 {n}",
+          "N 8 0", "E forced", "E tap", "S 66 {n}", "E sp", "E S", "N 9 {n}", "E 6", "S 3 {n}", "E hopo",
+          "E ENHANCED_OPENS", "E [ENHANCED_OPENS]", "N 32 0", "N 34 {n}", "N 64 0", "N 66 0", "E ENABLE_CHART_DYNAMICS",
+          "E H", "E P", "E open", "E 7", "E end", "E mix_3_drums0d", "E ow_face_on", "S 4 {n}", "S 20 {n}", "N 10 0"]
 
 
 def _with_inert(lines: list[str]) -> list[str]:
@@ -126,7 +184,9 @@ def parse_track(ctx, res: int, tempo, lines: list[str], header: str, rc, fmt: in
     strays = lines[:: max(1, len(lines) // 3)][:3] if (not fmt and len(lines) % 3 == 0) else ()
     secs = _decoys(header, lines, decoy)
     secs[header] = _with_inert(lines)
-    text = chart_text(res, tempo, secs, events=_global_events(lines), fmt=fmt, strays=strays)
+    k = zlib.crc32("\n".join(lines[:40]).encode()) >> 7
+    text = chart_text(res, tempo, secs, events=_global_events(lines), fmt=fmt, strays=strays,
+                      extra=k if k % 3 else 0)
     try:
         chart = L.parse(text)
     except Exception as e:  # noqa: BLE001
